@@ -21,26 +21,26 @@ type vline struct {
 
 // Obligation is one proof obligation of a function.
 type Obligation struct {
-	ID      string
-	Kind    string // safety | pre | post | frame | inv-init | inv-step | unwind | step | refines | site | lemma
-	Props   []string
-	Func    string
-	Clause  string // clause text (if any)
-	Pos     string
-	tag     int
-	nlines  int // number of lines of fv.lines that precede it
-	guard   string
-	goal    string
-	extra   []string // extra declarations local to this obligation
-	fv      *FnVC
-	Result  *SolveResult
-	witness *Clause
-	raw     string // complete query text (lemmas)
-	results []Val  // result values at the return this clause obligation belongs to (replay)
-	post    *State // state at that return
-	Inherited bool // the obligation carries the function-level property list (no tag of its own)
-	batchFrom int // batches: number of lines that existed before the first member
-	exclude map[*Obligation]bool // batch members: their own assumption lines are left out
+	ID        string
+	Kind      string // safety | pre | post | frame | inv-init | inv-step | unwind | step | refines | site | lemma
+	Props     []string
+	Func      string
+	Clause    string // clause text (if any)
+	Pos       string
+	tag       int
+	nlines    int // number of lines of fv.lines that precede it
+	guard     string
+	goal      string
+	extra     []string // extra declarations local to this obligation
+	fv        *FnVC
+	Result    *SolveResult
+	witness   *Clause
+	raw       string               // complete query text (lemmas)
+	results   []Val                // result values at the return this clause obligation belongs to (replay)
+	post      *State               // state at that return
+	Inherited bool                 // the obligation carries the function-level property list (no tag of its own)
+	batchFrom int                  // batches: number of lines that existed before the first member
+	exclude   map[*Obligation]bool // batch members: their own assumption lines are left out
 }
 
 type heapInfo struct {
@@ -59,23 +59,23 @@ type Heap struct {
 // havoc records that part of a heap was replaced by unknown (or specified)
 // contents: sym agrees with parent outside region.
 type havoc struct {
-	sym     string
-	parent  *Heap
-	region  func(loc string) string // nil: everything
-	content func(loc string) string // nil: unknown (select sym loc)
-	done    map[string]bool
-	inst    map[string][]int // loc -> tags at which the frame instance was emitted
-	calleeFrame bool // created from a callee's assigns clause
-	relevant func(loc string) bool // syntactic filter: false = the frame instance at loc is vacuous
+	sym         string
+	parent      *Heap
+	region      func(loc string) string // nil: everything
+	content     func(loc string) string // nil: unknown (select sym loc)
+	done        map[string]bool
+	inst        map[string][]int      // loc -> tags at which the frame instance was emitted
+	calleeFrame bool                  // created from a callee's assigns clause
+	relevant    func(loc string) bool // syntactic filter: false = the frame instance at loc is vacuous
 }
 
 // State is the symbolic machine state at a program point.
 type State struct {
 	reach string
 	heaps map[string]*Heap
-	alloc string // Int term: ids >= alloc are unallocated
-	epoch int    // bumped when all memory is havocked
-	dirty string // Bool term: a call with unknown effects happened on the path ("" = false)
+	alloc string         // Int term: ids >= alloc are unallocated
+	epoch int            // bumped when all memory is havocked
+	dirty string         // Bool term: a call with unknown effects happened on the path ("" = false)
 	ghost map[string]Val // results of the latest interface-method calls (callresult())
 	tags  map[string]int // interface term -> dynamic type tag known on every path to here (>0), or -tag: known NOT to be
 }
@@ -102,65 +102,67 @@ func (s *State) clone() *State {
 
 // FnVC generates the verification conditions of one function under contract.
 type FnVC struct {
-	eng      *Engine
-	top      *ssa.Function
-	ct       *Contract
-	lines    []vline
-	curTag   int
-	anc      map[int]map[int]bool
-	n        int
-	heapTab  map[string]*heapInfo
-	heapList []*heapInfo
-	obls     []*Obligation
-	strLits  map[string]string
-	gids     map[ssa.Value]int
-	notes    map[string]bool // abstractions applied (unknown calls, havocs)
-	oos      []string        // out-of-subset constructs met
-	entry    *State
-	allocEntry string
-	only     map[string]bool // restrict obligations to these props (nil = all)
-	boundDepth int
-	ufDecl   map[string]bool
-	implDecl map[string]bool
-	unsupported bool
-	epoch       int
-	closures    map[string]*closureRec
-	ranges      map[*ssa.Range]*rangeRec
-	usedExternal  map[string]bool
-	usedContracts map[string]bool
-	specErrs    []string
-	frame       map[string]*region
-	frameAny    bool
-	implTypes   map[string]types.Type
-	mergedEpochs map[int]*mergedEpoch
-	privEpochs   map[int]*privEpoch
-	epochTag     map[int]int
-	baseCache    map[string]*Heap
-	localRoots   []string // (use visibleLocalRoots) roots of allocations that never escape the function
-	localRootTag []int
-	private      string // root term of memory that unknown callees cannot reach
+	eng             *Engine
+	top             *ssa.Function
+	ct              *Contract
+	lines           []vline
+	curTag          int
+	anc             map[int]map[int]bool
+	n               int
+	heapTab         map[string]*heapInfo
+	heapList        []*heapInfo
+	obls            []*Obligation
+	strLits         map[string]string
+	gids            map[ssa.Value]int
+	notes           map[string]bool // abstractions applied (unknown calls, havocs)
+	oos             []string        // out-of-subset constructs met
+	entry           *State
+	allocEntry      string
+	only            map[string]bool // restrict obligations to these props (nil = all)
+	boundDepth      int
+	ufDecl          map[string]bool
+	implDecl        map[string]bool
+	unsupported     bool
+	epoch           int
+	closures        map[string]*closureRec
+	ranges          map[*ssa.Range]*rangeRec
+	usedExternal    map[string]bool
+	usedContracts   map[string]bool
+	specErrs        []string
+	frame           map[string]*region
+	frameAny        bool
+	implTypes       map[string]types.Type
+	mergedEpochs    map[int]*mergedEpoch
+	privEpochs      map[int]*privEpoch
+	epochTag        map[int]int
+	baseCache       map[string]*Heap
+	localRoots      []string // (use visibleLocalRoots) roots of allocations that never escape the function
+	localRootTag    []int
+	private         string             // root term of memory that unknown callees cannot reach
+	privName        string             // the contract's name for it (a parameter)
+	loopPassesPriv  map[*loopInfo]bool // loops containing a contracted assigns-* call that is handed the private root
 	ifaceFrameProps []string
-	lazies  []*lazyQuant
-	defMemo map[string][]defEntry
-	assumeMemo map[string][]int
-	inInst  int
-	quiet   int // >0: loads made while evaluating assumed clauses do not instantiate frame axioms
-	akCache map[*ssa.Function]map[string]string
-	tagLines map[int][]int // line indices per tag
-	siteN   int
-	elemLocs map[string]bool
-	frameCPs []*frameCP
-	paramVals []Val // entry values of the parameters (receiver first)
-	retVals   []Val // results at the return whose clauses are being generated
-	retState  *State
-	reachAnd map[string][]string // path condition -> path conditions it is a strengthening of
-	reachOr  map[string][]string // merged path condition -> its disjuncts
-	oblIDs   map[string]int
-	cpStop   map[string]bool // heap terms at which frame-axiom instantiation stops (a checkpoint fact covers the rest)
-	edgePos  map[string]string // branch condition name -> source position (for counterexample traces)
-	nilableLocs map[string]bool // element locations of containers declared `nilable`
-	skolems []skolem
-	okTerms map[string]okFact // Bool term of a comma-ok type assertion -> what it tests
+	lazies          []*lazyQuant
+	defMemo         map[string][]defEntry
+	assumeMemo      map[string][]int
+	inInst          int
+	quiet           int // >0: loads made while evaluating assumed clauses do not instantiate frame axioms
+	akCache         map[*ssa.Function]map[string]string
+	tagLines        map[int][]int // line indices per tag
+	siteN           int
+	elemLocs        map[string]bool
+	frameCPs        []*frameCP
+	paramVals       []Val // entry values of the parameters (receiver first)
+	retVals         []Val // results at the return whose clauses are being generated
+	retState        *State
+	reachAnd        map[string][]string // path condition -> path conditions it is a strengthening of
+	reachOr         map[string][]string // merged path condition -> its disjuncts
+	oblIDs          map[string]int
+	cpStop          map[string]bool   // heap terms at which frame-axiom instantiation stops (a checkpoint fact covers the rest)
+	edgePos         map[string]string // branch condition name -> source position (for counterexample traces)
+	nilableLocs     map[string]bool   // element locations of containers declared `nilable`
+	skolems         []skolem
+	okTerms         map[string]okFact // Bool term of a comma-ok type assertion -> what it tests
 }
 
 type okFact struct {
@@ -364,13 +366,13 @@ func (fv *FnVC) baseHeapObj(hi *heapInfo, epoch int) *Heap {
 }
 
 type privEpoch struct {
-	prev   int
-	region func(string) string
-	alloc  string
+	prev          int
+	region        func(string) string
+	alloc         string
 	onlyImmutable bool
-	tag    int
-	localOnly bool // the kept memory consists of non-escaping local cells only (no private root)
-	roots  []string
+	tag           int
+	localOnly     bool // the kept memory consists of non-escaping local cells only (no private root)
+	roots         []string
 }
 
 // mergedEpoch: the memory epoch after a join of paths with different epochs.
@@ -707,7 +709,7 @@ func (fv *FnVC) mergeStates(conds []string, sts []*State) *State {
 // ---------------------------------------------------------------------------
 
 func lfield(loc string, i int) string { return fmt.Sprintf("(LField %s %d)", loc, i) }
-func lelem(loc, idx string) string   { return "(LElem " + loc + " " + idx + ")" }
+func lelem(loc, idx string) string    { return "(LElem " + loc + " " + idx + ")" }
 
 func leafKey(t types.Type) string { return canonType(t) }
 
